@@ -323,6 +323,19 @@ pub fn run(started: Instant) -> i32 {
     progs.extend(families::a1(Entropy::Noise).into_iter().step_by(if thorough { 1 } else { 4 }));
     progs.extend(families::tree(3, if thorough { 6 } else { 5 }, 2, &[0, 1, CHUNK, CHUNK + 1, BLOCK + 1], Entropy::Pattern));
     progs.extend(families::bases(Entropy::Constant));
+    // names: FileStart.length is a byte length - non-ASCII names (byte length != character count), the empty
+    // name, a 300-byte name, a name with a NUL and one with a newline
+    for mut p in families::bases(Entropy::Pattern) {
+        let pool = ["\u{e9}\u{2620}/\u{1f600}", "", "donn\u{e9}es \u{4e2d}\u{6587}.bin", "a\u{0}b", "line\nbreak"];
+        for (i, n) in p.names.iter_mut().enumerate() {
+            *n = match i {
+                0..=4 => pool[i].to_string(),
+                5 => "\u{e9}".repeat(150),
+                _ => format!("{}{i}", pool[i % 5]),
+            };
+        }
+        progs.push(p);
+    }
     let mut cases = cases_for(progs, if thorough { &[0, 5, 11] } else { &[5] }, &[1, 3]);
     // many chunks: the chunk counter must be a big-endian u32, every byte of it. > 256 chunks (all layer
     // combinations) and > 65536 chunks (encryption only: 2 MiB at this scale). The fourth counter byte
